@@ -1,41 +1,396 @@
 package main
 
+// C20: push/pull fetches each announced item once, falling back to the next announcer.
+//   - correspondence: generated event traces (announcements from many peers for many hashes, arrivals, clock ticks,
+//     scheduling slots of the tracker goroutines loop/gc and of the manager's relay goroutine, cache expiries) run on
+//     the REAL PushPullManager + DefaultHolder + DefaultPushTracker under the blocking virtual clock (rig.go); every
+//     event line, the emitted pull requests (kind:peer:hash:virtual time) and the tracker's sizes / full state go to
+//     the Lean model (PushPull.step).
+//   - independent oracle (oracle.go): the property's predicates evaluated on the emitted sequence and on before/after
+//     snapshots of the real tracker's state.
 import (
+	"encoding/json"
 	"fmt"
 	"os"
+	"strings"
+
+	"github.com/idena-network/idena-go/common"
+	"github.com/idena-network/idena-go/common/pushpull"
 
 	"verifharness/internal/hx"
 )
 
 type c20ev struct {
-	K string `json:"k"`
+	K string `json:"k"` // ann arr tick loop gc dlv exp fgt state
 	P int    `json:"p,omitempty"`
 	H int    `json:"h,omitempty"`
 	T int64  `json:"t,omitempty"`
 }
 
+func (e c20ev) line() string {
+	switch e.K {
+	case "ann":
+		return fmt.Sprintf("ann %d %d", e.P, e.H)
+	case "arr", "exp", "fgt":
+		return fmt.Sprintf("%s %d", e.K, e.H)
+	case "tick":
+		return fmt.Sprintf("tick %d", e.T)
+	}
+	return e.K
+}
+
+type c20case struct {
+	Delay int64   `json:"delay"` // pullDelay, ms
+	Cap   int     `json:"cap"`   // 0: the DefaultHolder's own MaxParallelPulls (3); >0: override (TxPool/KeysPool use 1)
+	Light bool    `json:"light,omitempty"`
+	Ev    []c20ev `json:"ev"`
+}
+
+type c20result struct {
+	newLine string
+	lines   [][2]string // op line, implementation answer
+	fail    *c20fail
+	decs    int
+	outs    int
+	maxPend int
+}
+
+func fmtOuts(out []c20out) string {
+	if len(out) == 0 {
+		return "-"
+	}
+	s := make([]string, len(out))
+	for i, o := range out {
+		s[i] = o.String()
+	}
+	return strings.Join(s, " ")
+}
+
+// c20run executes a case on a fresh rig; `next` (optional) extends the case adaptively: it is called whenever the
+// event list is exhausted and returns further events (used by the generator; replay and shrinking pass nil).
+// The pseudo-event "drain" expands (adaptively, into concrete tick/loop/dlv lines) to a fair prompt schedule without
+// further input until nothing is pending.
+func c20run(cs *c20case, next func(r *rig) []c20ev) (res c20result, err error) {
+	r, err := newRig(cs.Delay, cs.Cap)
+	if err != nil {
+		return res, err
+	}
+	defer r.close()
+	res.newLine = fmt.Sprintf("new %d %d %d 0", cs.Delay, r.cap, pushpull.VerifMaxPendingPushes)
+	or := newOracle(cs.Delay, r.cap, pushpull.VerifMaxPendingPushes)
+	setFail := func(f *c20fail) {
+		if f != nil && res.fail == nil {
+			res.fail = f
+		}
+	}
+	// do runs one concrete event; false = the rig is broken, stop
+	do := func(i int, e c20ev) bool {
+		if e.K == "state" {
+			res.lines = append(res.lines, [2]string{e.line(), r.stateLine()})
+			return true
+		}
+		var before c20snap
+		if !cs.Light {
+			before = r.snap()
+		}
+		out := r.exec(e)
+		res.outs += len(out)
+		for _, o := range out {
+			if o.Kind == "dec" {
+				res.decs++
+			}
+		}
+		if r.err != "" {
+			setFail(&c20fail{"C20:rig-error", fmt.Sprintf("event %d (%s): %s", i, e.line(), r.err)})
+			res.lines = append(res.lines, [2]string{e.line(), "panic"})
+			return false
+		}
+		res.lines = append(res.lines, [2]string{e.line(), fmtOuts(out) + " | " + r.sizes()})
+		n := r.tracker.VerifPendingLen()
+		if n > res.maxPend {
+			res.maxPend = n
+		}
+		if !cs.Light {
+			setFail(or.observe(i, e, out, before, r.snap(), r))
+		} else if n > pushpull.VerifMaxPendingPushes+1 {
+			setFail(&c20fail{"C20:pending-unbounded", fmt.Sprintf("event %d: %d pending pushes > maxPendingPushes+1", i, n)})
+		}
+		return true
+	}
+	if next != nil && len(cs.Ev) == 0 {
+		cs.Ev = append(cs.Ev, next(r)...)
+	}
+	for i := 0; i < len(cs.Ev); i++ {
+		e := cs.Ev[i]
+		if e.K == "drain" {
+			rounds := 3*r.tracker.VerifPendingLen() + 3*len(r.fifo) + 8
+			for r.tracker.VerifPendingLen() > 0 || len(r.fifo) > 0 {
+				if rounds--; rounds < 0 {
+					setFail(&c20fail{"C20:not-drained", fmt.Sprintf("event %d: a fair prompt schedule without further input did not empty the pending list (%d left)", i, r.tracker.VerifPendingLen())})
+					break
+				}
+				lw, _ := c20wakes()
+				ok := true
+				if lw > r.now() {
+					ok = do(i, c20ev{K: "tick", T: lw})
+				}
+				ok = ok && do(i, c20ev{K: "loop"}) && do(i, c20ev{K: "dlv"})
+				if !ok {
+					return res, nil
+				}
+			}
+		} else if !do(i, e) {
+			break
+		}
+		if next != nil && i == len(cs.Ev)-1 {
+			cs.Ev = append(cs.Ev, next(r)...)
+		}
+	}
+	return res, nil
+}
+
+func c20wakes() (loop, gc int64) {
+	loop, gc = -1, -1
+	for _, s := range common.VerifBlockingParked() {
+		w := (s.Wake - c20T0.UnixNano()) / 1e6
+		if s.Who == "loop" {
+			loop = w
+		} else if s.Who == "gc" {
+			gc = w
+		}
+	}
+	return
+}
+
+func c20shrink(cs c20case, sig string) c20case {
+	fails := func(c c20case) bool {
+		res, err := c20run(&c, nil)
+		return err == nil && res.fail != nil && res.fail.Sig == sig
+	}
+	for changed := true; changed; {
+		changed = false
+		for chunk := len(cs.Ev) / 2; chunk >= 1; chunk /= 2 {
+			for i := 0; i+chunk <= len(cs.Ev); {
+				t := c20case{Delay: cs.Delay, Cap: cs.Cap, Light: cs.Light}
+				t.Ev = append(append([]c20ev{}, cs.Ev[:i]...), cs.Ev[i+chunk:]...)
+				if fails(t) {
+					cs, changed = t, true
+				} else {
+					i += chunk
+				}
+			}
+		}
+	}
+	return cs
+}
+
+func c20emit(c *hx.Ctx, cs c20case, res c20result) {
+	c.Line(res.newLine, "ok")
+	for _, l := range res.lines {
+		c.Line(l[0], l[1])
+		c.Hit("ev:" + strings.SplitN(l[0], " ", 2)[0])
+		for _, k := range []string{"imm:", "dec:", "fwd:"} {
+			if strings.Contains(l[1], k) {
+				c.Hit("out:" + k[:3])
+			}
+		}
+	}
+	if res.fail != nil {
+		small := c20shrink(cs, res.fail.Sig)
+		r2, err := c20run(&small, nil)
+		detail := res.fail.Detail
+		if err == nil && r2.fail != nil {
+			detail = r2.fail.Detail
+		}
+		c.Fail(res.fail.Sig, detail, small)
+	}
+}
+
+// ---- generator ----------------------------------------------------------------------------------------------
+
+var c20delays = []int64{50, 300, 500, 1000, 3000, 5000, 10000, 400000}
+
+type c20gen struct {
+	c        *hx.Ctx
+	peers    int
+	hashes   int
+	prompt   bool // a well-behaved scheduler: due goroutines run at once, the manager relays at once
+	long     bool // minute-scale jumps (gc)
+	budget   int
+	draining int
+}
+
+// next produces the events that follow (adaptive: looks at the rig's clock and parked goroutines).
+func (g *c20gen) next(r *rig) []c20ev {
+	rng := g.c.Rng
+	if g.budget <= 0 {
+		if g.draining == 0 {
+			g.draining = 1
+			return []c20ev{{K: "drain"}, {K: "state"}}
+		}
+		return nil
+	}
+	g.budget--
+	now := r.now()
+	lw, gw := c20wakes()
+	var evs []c20ev
+	x := rng.Intn(100)
+	switch {
+	case x < 38:
+		evs = append(evs, c20ev{K: "ann", P: 1 + rng.Intn(g.peers), H: 1 + rng.Intn(g.hashes)})
+		for rng.Intn(3) == 0 { // bursts: several peers announce the same hash
+			evs = append(evs, c20ev{K: "ann", P: 1 + rng.Intn(g.peers), H: evs[0].H})
+		}
+	case x < 60:
+		var t int64
+		switch y := rng.Intn(12); {
+		case y < 3:
+			t = now + 1 + int64(rng.Intn(20))
+		case y < 5 && lw >= 0:
+			t = lw // exactly the loop's wake-up time
+		case y < 6 && lw >= 0:
+			t = lw - 1
+		case y < 7:
+			t = now + r.delay
+		case y < 8:
+			t = now + r.delay/2
+		case y < 9:
+			t = now + r.delay + 1 + int64(rng.Intn(30))
+		case y < 10 && g.long:
+			t = gw
+		case y < 11 && g.long:
+			t = now + 60000*int64(1+rng.Intn(6))
+		case y == 11 && rng.Intn(4) == 0:
+			t = now - int64(rng.Intn(50)) // the clock never goes back: ignored
+		default:
+			t = now + int64(rng.Intn(int(r.delay)+10))
+		}
+		if t < 0 {
+			t = 0
+		}
+		evs = append(evs, c20ev{K: "tick", T: t})
+		if g.prompt {
+			if lw <= gw {
+				evs = append(evs, c20ev{K: "loop"}, c20ev{K: "dlv"}, c20ev{K: "gc"})
+			} else {
+				evs = append(evs, c20ev{K: "gc"}, c20ev{K: "loop"}, c20ev{K: "dlv"})
+			}
+		}
+	case x < 74:
+		evs = append(evs, c20ev{K: "loop"})
+		if g.prompt || rng.Intn(2) == 0 {
+			evs = append(evs, c20ev{K: "dlv"})
+		}
+	case x < 82:
+		evs = append(evs, c20ev{K: "dlv"})
+	case x < 85:
+		evs = append(evs, c20ev{K: "gc"})
+	case x < 92:
+		evs = append(evs, c20ev{K: "arr", H: 1 + rng.Intn(g.hashes)})
+	case x < 94:
+		evs = append(evs, c20ev{K: "exp", H: 1 + rng.Intn(g.hashes)})
+	case x < 96:
+		evs = append(evs, c20ev{K: "fgt", H: 1 + rng.Intn(g.hashes)})
+	default:
+		evs = append(evs, c20ev{K: "state"})
+	}
+	if len(r.fifo) > 200 { // keep the tracker's channel (capacity 1000) far from full: the manager does relay
+		evs = append(evs, c20ev{K: "dlv"})
+	}
+	return evs
+}
+
+func c20generate(c *hx.Ctx, maxEv int) (c20case, c20result, error) {
+	rng := c.Rng
+	cs := c20case{Delay: c20delays[rng.Intn(len(c20delays))], Cap: rng.Intn(5)}
+	g := &c20gen{c: c, peers: 2 + rng.Intn(7), hashes: 1 + rng.Intn(6), prompt: rng.Intn(5) < 3, long: rng.Intn(4) == 0,
+		budget: 10 + rng.Intn(maxEv)}
+	if g.long && rng.Intn(2) == 0 {
+		cs.Delay = 400000
+	}
+	res, err := c20run(&cs, g.next)
+	return cs, res, err
+}
+
+// c20bound: more announcers than maxPendingPushes for one hash; the pending list must stop growing.
+func c20bound() c20case {
+	cs := c20case{Delay: 10000, Cap: 1, Light: true}
+	cs.Ev = append(cs.Ev, c20ev{K: "ann", P: 1, H: 1}, c20ev{K: "ann", P: 1, H: 2}, c20ev{K: "tick", T: 5})
+	for p := 2; p < pushpull.VerifMaxPendingPushes+6; p++ {
+		cs.Ev = append(cs.Ev, c20ev{K: "ann", P: p, H: 1})
+	}
+	cs.Ev = append(cs.Ev, c20ev{K: "ann", P: 2, H: 2}, c20ev{K: "tick", T: 9}, c20ev{K: "loop"}, c20ev{K: "tick", T: 10}, c20ev{K: "loop"})
+	return cs
+}
+
 func init() {
 	hx.Register("C20", func(c *hx.Ctx) error {
-		r, err := newRig(500, 0)
+		if c.Replay != "" {
+			b, err := os.ReadFile(c.Replay)
+			if err != nil {
+				return err
+			}
+			var wrap struct {
+				Replay c20case `json:"replay"`
+			}
+			if err := json.Unmarshal(b, &wrap); err != nil {
+				return err
+			}
+			res, err := c20run(&wrap.Replay, nil)
+			if err != nil {
+				return err
+			}
+			c20emit(c, wrap.Replay, res)
+			c.Rep.Evaluations = 1
+			return nil
+		}
+		n, maxEv := c.Scale(1500, 60000), 90
+		if c.Tier == "thorough" {
+			maxEv = 160
+		}
+		c.Rep.Rule = "random event traces (2-8 peers, 1-6 hashes, pullDelay 50 ms-400 s, MaxParallelPulls 1-4; announcements in bursts, arrivals, cache expiries, clock ticks to/around the tracker's wake-up times and minute-scale jumps, scheduling slots of the tracker goroutines loop/gc and of the manager relay either prompt or arbitrarily delayed, final fair drain) on the real PushPullManager+DefaultHolder+DefaultPushTracker under the blocking virtual clock; plus one trace that overfills maxPendingPushes; distinct = distinct traces; non-trivial = at least one deferred pull request was issued by the tracker"
+		for i := 0; i < n; i++ {
+			cs, res, err := c20generate(c, maxEv)
+			if err != nil {
+				return err
+			}
+			c20emit(c, cs, res)
+			c.Rep.Evaluations++
+			if res.decs > 0 {
+				key, _ := json.Marshal(cs)
+				if c.Distinct(string(key)) {
+					c.Rep.Distinct++
+				}
+			}
+			c.Hit(fmt.Sprintf("delay:%d", cs.Delay))
+			c.Hit(fmt.Sprintf("cap:%d", cs.Cap))
+			switch {
+			case res.decs == 0:
+				c.Hit("decs:0")
+			case res.decs < 4:
+				c.Hit("decs:1-3")
+			default:
+				c.Hit("decs:4+")
+			}
+			if res.maxPend >= 4 {
+				c.Hit("pending>=4")
+			}
+			if i < 2 {
+				c.Sample(cs)
+			}
+		}
+		// the bound
+		cs := c20bound()
+		res, err := c20run(&cs, nil)
 		if err != nil {
 			return err
 		}
-		evs := []c20ev{
-			{K: "ann", P: 1, H: 1}, {K: "ann", P: 2, H: 1},
-			{K: "tick", T: 100},
-			{K: "ann", P: 1, H: 2}, {K: "ann", P: 2, H: 2}, {K: "ann", P: 3, H: 2},
-			{K: "tick", T: 110}, {K: "loop"},
-			{K: "tick", T: 200}, {K: "ann", P: 3, H: 1},
-			{K: "tick", T: 600}, {K: "loop"}, {K: "dlv"},
-			{K: "tick", T: 1100}, {K: "loop"}, {K: "dlv"},
-			{K: "tick", T: 1700}, {K: "loop"}, {K: "dlv"},
-			{K: "tick", T: 2700}, {K: "loop"}, {K: "dlv"},
+		c20emit(c, cs, res)
+		c.Rep.Evaluations++
+		c.Hit(fmt.Sprintf("bound:maxPending=%d", res.maxPend))
+		if res.maxPend != pushpull.VerifMaxPendingPushes+1 {
+			c.Fail("C20:bound-not-reached", fmt.Sprintf("overfill trace reached %d pending pushes, expected maxPendingPushes+1", res.maxPend), nil)
 		}
-		for _, e := range evs {
-			out := r.exec(e)
-			fmt.Fprintln(os.Stderr, e, "->", out, "|", r.stateLine(), r.err)
-		}
-		r.close()
 		return nil
 	})
 }
